@@ -322,7 +322,17 @@ SCALAR_GEN = {
     "pattern": lambda r: re.compile(r.choice(["a+", "", "[a-z]*", "(x|y)"])),
 }
 
-UNHASHABLE_SCALARS = {"bytearray"}
+def _bytesio(r):
+    """a stream with content and a position anywhere in it (a dumper must read the whole content and leave the position)"""
+    b = io.BytesIO(r.choice([b"", b"a", b"abcd", b"\x00\xff\x10", bytes(r.randrange(256) for _ in range(r.randrange(1, 9)))]))
+    b.seek(r.randrange(len(b.getvalue()) + 1))
+    return b
+
+
+# stateful scalars: generated only on request (TypeGen(stateful=True)); `==` on them is identity
+STATEFUL_GEN = {"bytesio": _bytesio}
+
+UNHASHABLE_SCALARS = {"bytearray", "bytesio"}
 # JSON-representable dict keys after dumping are strings only
 STR_DUMP_SCALARS = {"str", "decimal", "fraction", "complex", "datetime", "date", "time", "bytes", "uuid", "ipv4address",
                     "ipv6address", "ipv4network", "ipv4interface", "purepath", "path", "pattern"}
@@ -354,16 +364,20 @@ def class_key(cls) -> str:
 
 
 class TypeGen:
-    def __init__(self, rng, user_leaves=False):
+    def __init__(self, rng, user_leaves=False, stateful=False):
         self.rng = rng
         self.user_leaves = user_leaves
+        self.stateful = stateful
         self.n_models = 0
         self.model_specs: dict[str, Spec] = {}
 
     def scalar(self, name=None):
+        if name is None and self.stateful and self.rng.random() < 0.15:
+            name = self.rng.choice(list(STATEFUL_GEN))
         name = name or self.rng.choice(list(SCALAR_GEN))
         tp = X.scalar_pool()[name]
-        return Spec(hint=tp if tp is not type(None) else None, ty=["scalar", name], gen=SCALAR_GEN[name], kind="scalar:" + name,
+        return Spec(hint=tp if tp is not type(None) else None, ty=["scalar", name],
+                    gen=SCALAR_GEN.get(name) or STATEFUL_GEN[name], kind="scalar:" + name,
                     hashable=name not in UNHASHABLE_SCALARS)
 
     def user_leaf(self):
@@ -479,6 +493,7 @@ class TypeGen:
                   hashable=all(c.hashable for c in ordered), json_safe=all(c.json_safe for c in ordered),
                   overlapping=True)
         sp.dump_ambiguous = self.dump_ambiguous(ordered, key_classes)
+        sp.key_classes = key_classes
         return sp
 
     def dump_ambiguous(self, ordered, key_classes) -> bool:
@@ -527,13 +542,14 @@ class TypeGen:
             specs.append((fname, fs, required))
         return self.model_of(name, specs)
 
-    def model_of(self, name, specs):
-        """dataclass model from (field name, spec, required) triples"""
+    def model_of(self, name, specs, base=None, own=None):
+        """dataclass model from (field name, spec, required) triples; with `base`, a subclass of that dataclass declaring
+        only the `own` triples (specs = all fields, inherited first)"""
         fields_ = []
         # dataclass: fields without default first
         specs.sort(key=lambda t: not t[2])
         dflts = {}
-        for fname, fs, required in specs:
+        for fname, fs, required in (specs if own is None else own):
             if required:
                 fields_.append((fname, fs.hint))
             else:
@@ -544,7 +560,7 @@ class TypeGen:
                     fields_.append((fname, fs.hint, dataclasses.field(default=dv)))
                 except TypeError:
                     fields_.append((fname, fs.hint, dataclasses.field(default_factory=lambda dv=dv: _copy(dv))))
-        cls = make_dataclass(name, fields_)
+        cls = make_dataclass(name, fields_, bases=(base,) if base is not None else ())
         cls.__module__ = __name__
         spec = Spec(hint=cls, ty=["model", name],
                     gen=lambda r, cls=cls, specs=specs: cls(**{fn: fs.gen(r) for fn, fs, _ in specs}),
@@ -576,6 +592,36 @@ class TypeGen:
             self.n_models += 1
             return self.model_of(f"M{self.n_models}", [("a0", child, True), ("b1", int_s, False)])
         return child
+
+    def related_union(self):
+        """Union of two classes of ONE inheritance chain K0 <- K1 <- ... (dataclasses, every class adds a field); values are
+        instances of the cases AND of their strict subclasses, which the union dumper must dispatch to the NEAREST ancestor
+        among the cases (ClassDispatcher walks the MRO)"""
+        rng = self.rng
+        depth = rng.choice([3, 3, 4])
+        letters = rng.sample("ABCDEFGHJKLMNPQRSTUVWXYZ", depth)
+        chain, specs = [], []
+        for lvl in range(depth):
+            self.n_models += 1
+            fs = rng.choice([self.scalar("int"), self.scalar("str"), self.scalar("bool"), self.scalar("date")])
+            own = [(f"f{lvl}", fs, True)]
+            specs = specs + own
+            name = f"{letters[lvl]}{self.n_models}"
+            sp = self.model_of(name, list(specs), base=chain[-1].cls if chain else None, own=own)
+            chain.append(sp)
+        i, j = sorted(rng.sample(range(depth), 2))
+        others = [self.scalar("none")] if rng.random() < 0.3 else ([self.scalar("str")] if rng.random() < 0.3 else [])
+        cases = [chain[i], chain[j], *others]
+        rng.shuffle(cases)
+        sp = self.union_from(Union[tuple(c.hint for c in cases)], cases)
+        below = chain[i:]
+
+        def g(r, below=below):
+            return r.choice(below).gen(r)
+        sp.gen = g
+        sp.aux = chain          # classes of values that are not cases themselves
+        sp.related = True
+        return sp
 
     def unexpected_union(self):
         """Union[W[U1|U2], W[U3]]: the first case can raise an unexpected (non-LoadError) exception on data the second
@@ -914,7 +960,7 @@ def spec_classes_deep(spec: Spec, seen=None, out=None):
     seen.add(id(spec))
     if spec.kind == "model":
         out[spec.ty[1]] = spec
-    for c in spec.children:
+    for c in [*spec.children, *getattr(spec, "aux", [])]:
         spec_classes_deep(c, seen, out)
     return out
 
@@ -1243,12 +1289,15 @@ class Engine:
         self.hostile = hostile.corpus()
 
     # ---- generation ------------------------------------------------------------------
-    def gen_specs(self, n, depth, user_leaves=False):
-        tg = TypeGen(self.ctx.rng, user_leaves=user_leaves)
+    def gen_specs(self, n, depth, user_leaves=False, related=False, stateful=False):
+        tg = TypeGen(self.ctx.rng, user_leaves=user_leaves, stateful=stateful)
         out = []
         for i in range(n):
             if user_leaves and i % 9 == 4:
                 out.append(tg.unexpected_union())
+            elif related and i % 8 == 3:
+                sp = tg.related_union()
+                out.append(tg.wrap(self.ctx.rng.choice(["id", "id", "list", "dict", "model"]), sp))
             else:
                 out.append(tree_spec() if i % 37 == 5 else tg.gen(depth))
         return out
